@@ -7,7 +7,7 @@ CFG = {
     "run_modules": ["Verif.C02.Run"],
     "coq_dirs": ["C02"],
     "n": {"quick": 1200, "thorough": 240000},
-    "shard": 50,
+    "shard": 80,
     "shrink": False,
     "max_report": 6,
     "eval_timeout": 1500,
